@@ -3,11 +3,13 @@
    utils.format_num / DictsReprMixin by exact string equality (tools/props/C16.py).
    The digit layer (proofs/C16_digits.v): the decimal text of `digits` denotes its number, zero padding and "_" grouping
    preserve it, so the two fields of the fixed-point text denote exactly m / 10^p for the rounded integer m.
-   Named partial (validated, not proved): the same for the exponent layout (mantissa and exponent fields are produced by
-   the same `digits`, the layout itself is tied by string equality only); floor_log10 finds the decade within its +-400
-   search range; the float operations round(), math.log10 and val * 100 behave like the exact ones for sig <= 6. *)
+   Exponent layout (proofs/C16_exp.v): the fuelled search finds the decimal exponent, the mantissa is normalised and
+   correctly rounded also after a carry, the fields denote (m, e).  Fixed-point branch (proofs/C16_fixed.v): the number of
+   decimals is re-derived after rounding and the second rendering never rounds again.  Dataframe views (model/Views.v).
+   Named partial (validated, not proved): the float operations round(), math.log10 and val * 100 behave like the exact
+   ones for sig <= 6; pandas / polars / pyarrow constructors (differential only). *)
 From Coq Require Import ZArith String Ascii List Bool.
-From TT Require Import model.Render proofs.C16_render proofs.C16_digits.
+From TT Require Import model.Render model.Views proofs.C16_render proofs.C16_digits proofs.C16_exp proofs.C16_fixed proofs.C16_views.
 Import ListNotations.
 Local Open Scope Z_scope.
 
@@ -83,3 +85,91 @@ Print Assumptions C16_html_has_no_raw_markup.
 Print Assumptions C16_html_cells_round_trip.
 Print Assumptions C16_digits_denote_their_number.
 Print Assumptions C16_fixed_text_denotes_rounded_value.
+
+(* ---------- the exponent layout and the choice of decimals (proofs/C16_exp.v, proofs/C16_fixed.v) ---------- *)
+(* ge_pow10 n d e  is  10^e <= n/d  in integers.  The fuelled search finds THE decimal exponent of every ratio between
+   10^-401 and 10^400 (binary64 magnitudes lie between 4.9e-324 and 1.8e308). *)
+Theorem C16_decimal_exponent_is_floor_log10 n d : 0 < d -> ge_pow10 n d (- 401) -> ~ ge_pow10 n d 400 ->
+  ge_pow10 n d (floor_log10 n d) /\ ~ ge_pow10 n d (floor_log10 n d + 1).
+Proof. exact (floor_log10_spec n d). Qed.
+(* exponent format: the text is the rendering of a pair (m, e) ... *)
+Theorem C16_exponent_text_renders_mantissa_and_exponent n d p :
+  exp_abs n d p = let '(m, e) := exp_parts n d p in exp_text m e p.
+Proof. exact (exp_abs_text n d p). Qed.
+(* ... whose mantissa m / 10^p is normalised (one non-zero leading digit, also after a carry 9.996 -> 10.00 -> 1.00e+01),
+   is the half-even rounding of (n/d) / 10^e to p decimals, and is within 1/2 * 10^-p relative of n/d *)
+Theorem C16_exponent_mantissa_is_normalised_and_correctly_rounded n d p :
+  0 < n -> 0 < d -> ge_pow10 n d (- 401) -> ~ ge_pow10 n d 400 ->
+  let '(m, e) := exp_parts n d p in
+  pow10 p <= m < 10 * pow10 p /\
+  m = round_half_even (scale_n n e * pow10 p) (scale_d d e) /\
+  2 * Z.abs (m * scale_d d e - scale_n n e * pow10 p) <= scale_d d e /\
+  2 * Z.abs (m * scale_d d e - scale_n n e * pow10 p) <= scale_n n e /\
+  (e = floor_log10 n d \/ (e = floor_log10 n d + 1 /\ m = pow10 p)).
+Proof. exact (exp_parts_spec n d p). Qed.
+(* the fields of that text denote m and e: one leading digit 1..9, exactly p fraction digits, the exponent digits *)
+Theorem C16_exponent_fields_denote m e p : pow10 p <= m < 10 * pow10 p -> (0 < p)%nat ->
+  let ip := m / pow10 p in let fp := m mod pow10 p in
+  let frac := pad_zeros (p - str_len (digits fp)) (digits fp) in
+  1 <= ip <= 9 /\ digits ip = String (digit_char ip) EmptyString /\
+  parse_nat frac = fp /\ str_len frac = p /\ ip * pow10 p + fp = m /\
+  parse_nat (digits (Z.abs e)) = Z.abs e.
+Proof. exact (exp_fields_denote m e p). Qed.
+(* fixed-point branch of format_num: decimals p from the decade of the value, rounding, decimals p' from the decade of the
+   ROUNDED value (99.96 -> 100.0 has one decimal less), rendering with p' decimals.  The second step never rounds again:
+   the rendered number m'/10^p' is exactly the first rounding m/10^p ... *)
+Theorem C16_fixed_point_text_is_the_first_rounding a d (s : nat) :
+  0 < a -> 0 < d -> (1 <= s)%nat -> ge_pow10 a d (- 401) -> ~ ge_pow10 a d 399 ->
+  let p := Z.to_nat (Z.max 0 (Z.of_nat s - 1 - floor_log10 a d)) in
+  let m := round_half_even (a * pow10 p) d in
+  let p' := Z.to_nat (Z.max 0 (Z.of_nat s - 1 - floor_log10 m (pow10 p))) in
+  let m' := round_half_even (m * pow10 p') (pow10 p) in
+  m' * pow10 p = m * pow10 p' /\ 0 < m.
+Proof. exact (rendered_is_first_rounding a d s). Qed.
+(* ... which is within 1/2 * 10^(1-s) relative of the value: s significant digits *)
+Theorem C16_fixed_point_relative_error a d (s : nat) :
+  0 < a -> 0 < d -> (1 <= s)%nat -> ge_pow10 a d (- 401) -> ~ ge_pow10 a d 399 ->
+  let p := Z.to_nat (Z.max 0 (Z.of_nat s - 1 - floor_log10 a d)) in
+  let m := round_half_even (a * pow10 p) d in
+  2 * Z.abs (m * d - a * pow10 p) * 10 ^ Z.of_nat (s - 1) <= a * pow10 p.
+Proof. exact (rendered_relative_error a d s). Qed.
+Example C16_decade_hypotheses_hold : 0 < 9996 /\ 0 < 1000 /\ ge_pow10 9996 1000 (- 401) /\ ~ ge_pow10 9996 1000 399 /\
+  exp_parts 9996 1000 2 = (100, 1) /\ exp_abs 9996 1000 2 = "1.00e+01"%string.
+Proof. unfold ge_pow10. repeat split; try (vm_compute; congruence); vm_compute; intros C; discriminate C. Qed.
+
+(* ---------- dataframe views (model/Views.v, proofs/C16_views.v) ---------- *)
+(* to_arrow (and pandas / polars on to_dicts()): the columns are exactly the keys occurring in some row, each once; rows
+   keep their number and order; a cell is what its row holds under the column's key, nothing a row holds is lost, and a
+   key a row lacks is a null cell *)
+Theorem C16_view_columns_are_the_union_of_keys {V} (rows : list (list (string * V))) k :
+  In k (union_keys rows) <-> exists row, In row rows /\ In k (row_keys row).
+Proof. exact (columns_are_the_union rows k). Qed.
+Theorem C16_view_columns_distinct {V} (rows : list (list (string * V))) : NoDup (union_keys rows).
+Proof. exact (columns_distinct rows). Qed.
+Theorem C16_view_rows_in_order {V} (rows : list (list (string * V))) i row : nth_error rows i = Some row ->
+  nth_error (snd (view rows)) i = Some (view_row (union_keys rows) row) /\ length (snd (view rows)) = length rows.
+Proof. exact (rows_in_order_and_count rows i row). Qed.
+Theorem C16_view_loses_no_value {V} (rows : list (list (string * V))) row k : In row rows -> In k (row_keys row) ->
+  exists j v, nth_error (union_keys rows) j = Some k /\
+              nth_error (view_row (union_keys rows) row) j = Some (Some v) /\ In (k, v) row.
+Proof. exact (no_value_lost rows row k). Qed.
+Theorem C16_view_absent_key_is_null {V} (row : list (string * V)) k : ~ In k (row_keys row) -> lookup k row = None.
+Proof. exact (absent_key_is_null row k). Qed.
+Example C16_view_example :
+  view [[("metric", 1%Z); ("control", 2%Z)]; [("metric", 3%Z); ("pvalue", 4%Z); ("control", 5%Z)]]%string
+  = (["metric"; "control"; "pvalue"]%string, [[Some 1%Z; Some 2%Z; None]; [Some 3%Z; Some 5%Z; Some 4%Z]]).
+Proof. reflexivity. Qed.
+
+Print Assumptions C16_decimal_exponent_is_floor_log10.
+Print Assumptions C16_exponent_text_renders_mantissa_and_exponent.
+Print Assumptions C16_exponent_mantissa_is_normalised_and_correctly_rounded.
+Print Assumptions C16_exponent_fields_denote.
+Print Assumptions C16_fixed_point_text_is_the_first_rounding.
+Print Assumptions C16_fixed_point_relative_error.
+Print Assumptions C16_view_columns_are_the_union_of_keys.
+Print Assumptions C16_view_columns_distinct.
+Print Assumptions C16_view_rows_in_order.
+Print Assumptions C16_view_loses_no_value.
+Print Assumptions C16_view_absent_key_is_null.
+Print Assumptions C16_decade_hypotheses_hold.
+Print Assumptions C16_view_example.
